@@ -15,7 +15,7 @@ def parse_jobs():
         jobs = {}
         for tm in re.finditer(r"(\w) \|-> << (.*?) >>", m.group(2)):
             js = []
-            for j in re.finditer(r"SF\(\"(\w+)\", \"(\w+)\"\)|S\(\"(\w+)\"\)|RF|RU|R", tm.group(2)):
+            for j in re.finditer(r"SF\(\"(\w+)\", \"(\w+)\"\)|S\(\"(\w+)\"\)|RF|RU|RR|R", tm.group(2)):
                 tok = j.group(0)
                 if tok.startswith("SF"):
                     js.append({"kind": "send", "entry": j.group(1), "fault": j.group(2)})
@@ -23,6 +23,8 @@ def parse_jobs():
                     js.append({"kind": "send", "entry": j.group(3), "fault": "none"})
                 elif tok == "RF":
                     js.append({"kind": "recv", "entry": "-", "fault": "deliver"})
+                elif tok == "RR":
+                    js.append({"kind": "recvreply", "entry": "top", "fault": "none"})
                 elif tok == "RU":
                     js.append({"kind": "recv", "entry": "-", "fault": "undecodable"})
                 else:
@@ -63,6 +65,10 @@ class World(object):
                     if node["boom"]:
                         raise _Boom("application callback raising")
                     top.up.append(node)
+                    if node["reply"]:
+                        # answered on the delivering thread, from within the delivery (as a pong / receipt is)
+                        from yowsup.structs import ProtocolTreeNode
+                        top.toLower(ProtocolTreeNode("iq", {"id": node["reply"], "type": "get", "xmlns": "w:p"}))
             self.srv = NoiseServer()
             self.rig = transportkit.TransportRig(e2ekit.make_profile("49157701%05d" % World.N), self.srv, extra_layers=(Mid,), top_cls=Top, reply_inline=False)
             st = self.rig.stack
@@ -72,6 +78,8 @@ class World(object):
             self.mid, self.top, self.logger = st.getLayer(5), st.getLayer(6), st.getLayer(4)
             nz = self.rig.noise
             nz._flush_lock.name = "flush"
+            if hasattr(nz, "_transport_lock"):
+                nz._transport_lock.name = "transport"
             nz._incoming_segments_queue.name = "incomingQ"
             nz._stream._readqueue.name = "readQ"
             nz._stream._writequeue.name = "writeQ"
@@ -149,6 +157,8 @@ class World(object):
                         attrs = {"id": "srv-%s-%d" % (t, n)}
                         if j["fault"] == "deliver":
                             attrs["boom"] = "1"
+                        if j["kind"] == "recvreply":
+                            attrs["reply"] = "%s-%d" % (t, n)
                         pt = bytes(bytearray(WriteEncoder(TokenDictionary()).protocolTreeNodeToBytes(ProtocolTreeNode("ib", attrs))))
                         if j["fault"] == "undecodable":
                             pt = b"\x00\xf8\x02\xfc"           # list of 2 whose tag announces a string that is not there
@@ -172,7 +182,7 @@ class World(object):
         k, l = act["op"], act["l"]
         want = {"acq": ("acquire", l), "rel": ("release", l), "putW": ("put", "writeQ"), "getW": ("get", "writeQ"), "putI": ("put", "incomingQ"),
                 "getI": ("get", "incomingQ"), "sizeI": ("qsize", "incomingQ"), "sizeI2": ("qsize", "incomingQ"), "putR": ("put", "readQ"),
-                "getR": ("get", "readQ")}[k]
+                "getR": ("get", "readQ"), "sizeI3": ("qsize", "incomingQ")}[k]
         return tuple(op[:2]) == want
 
     def verdict(self, run, pid, label, expect_outcomes, jobs):
@@ -200,7 +210,7 @@ class World(object):
             except Exception:
                 got_ids.append("?")
         want_ids = sorted("%s-%d" % (t, i + 1) for t in jobs for i, j in enumerate(jobs[t])
-                          if j["kind"] == "send" and i < len(self.outcome[t]) and self.outcome[t][i] == "ok")
+                          if j["kind"] in ("send", "recvreply") and i < len(self.outcome[t]) and self.outcome[t][i] == "ok")
         if not any(p[0].startswith("wire:") for p in problems) and sorted(got_ids) != want_ids:
             problems.append(("wire:not-exactly-once", "stanzas on the wire %s, accepted sends %s" % (sorted(got_ids), want_ids)))
         # C12: outcomes, locks, incoming frames
@@ -212,7 +222,7 @@ class World(object):
         held = [l.name for l in [self.rig.stack.getLayer(i).lock for i in range(7)] + [self.rig.noise._flush_lock] if l.held]
         if held:
             problems.append(("lock-leak", "locks still held after all operations returned: %s" % held))
-        nrecv_ok = sum(1 for t in jobs for i, j in enumerate(jobs[t]) if j["kind"] == "recv" and j["fault"] == "none")
+        nrecv_ok = sum(1 for t in jobs for i, j in enumerate(jobs[t]) if j["kind"] in ("recv", "recvreply") and j["fault"] == "none")
         if not held and len(self.top.up) != nrecv_ok and not any(p[0].startswith("outcome") for p in problems):
             problems.append(("recv:lost", "%d of %d good incoming frames reached the top" % (len(self.top.up), nrecv_ok)))
         return problems
